@@ -23,10 +23,12 @@ BUDGET_S = {"quick": 20, "thorough": 500}
 FLOORS = {
     "quick": {"evaluations": 1500, "distinct": 200,
               "counters": {"mode_dir": 150, "mode_deflated": 150, "mode_stored": 150,
-                           "templates_compared": 1500, "sets_with_inheritance_or_import": 150}},
+                           "templates_compared": 1500, "sets_with_inheritance_or_import": 150,
+                           "shared_loader_sequences": 100}},
     "thorough": {"evaluations": 40000, "distinct": 4000,
                  "counters": {"mode_dir": 3000, "mode_deflated": 3000, "mode_stored": 3000,
-                              "templates_compared": 40000, "sets_with_inheritance_or_import": 3000}},
+                              "templates_compared": 40000, "sets_with_inheritance_or_import": 3000,
+                              "shared_loader_sequences": 2000}},
 }
 
 _n = 0
@@ -99,6 +101,55 @@ def check_case(ctx, case, mode, is_async, tmp):
                           f"template {name!r}: source {a!r} vs precompiled {b!r} | {corpus.sources(case)}",
                           {"case": case, "mode": mode, "async": is_async})
             return
+    # two differently configured environments may share ONE ModuleLoader, and globals may be
+    # installed after a precompiled template was first loaded: both must behave like source loading
+    def second(loader):
+        e = jinja2.Environment(loader=loader, extensions=corpus.EXTENSIONS, enable_async=is_async)
+        e.globals.update(case["globals"])
+        e.filters["mark"] = lambda v: f"[2{v}]"
+        e.globals["late"] = "two"
+        return e
+
+    probe = "zz_probe"
+    psrc = "{{ v|mark }}{{ late|default('-') }}"   # v is data: nothing to fold at precompile time
+    srcs = dict(corpus.sources(case))
+    srcs[probe] = psrc
+    import tempfile as _tf
+
+    s_env1 = jinja2.Environment(loader=jinja2.DictLoader(srcs), extensions=corpus.EXTENSIONS, enable_async=is_async)
+    s_env1.filters["mark"] = lambda v: f"[1{v}]"
+    target2 = target + ".probe" + (".zip" if mode != "dir" else "")
+    try:
+        s_env1.compile_templates(target2, zip=zipmode, ignore_errors=True, log_function=lambda m: None)
+        importlib.invalidate_caches()
+        shared = jinja2.ModuleLoader(target2)
+        m_env1 = jinja2.Environment(loader=shared, extensions=corpus.EXTENSIONS, enable_async=is_async)
+        m_env1.filters["mark"] = lambda v: f"[1{v}]"
+        seqs = {}
+        for label, e1, mk2 in (("source", s_env1, lambda: second(jinja2.DictLoader(srcs))),
+                               ("precompiled", m_env1, lambda: second(shared))):
+            out = []
+            t1 = e1.get_template(probe)
+            out.append(util.capture(lambda: t1.render(v='x')))            # first environment alone
+            e2 = mk2()
+            out.append(util.capture(lambda: e2.get_template(probe).render(v='x')))   # second environment, same loader
+            out.append(util.capture(lambda: t1.render(v='x')))            # first environment's template again
+            e1.globals["late"] = "one"                               # global installed after the first load
+            out.append(util.capture(lambda: t1.render(v='x')))
+            out.append(util.capture(lambda: e1.get_template(probe).render(v='x')))
+            seqs[label] = [repr(o) for o in out]
+        ctx.ev()
+        ctx.count("shared_loader_sequences")
+        if seqs["source"] != seqs["precompiled"]:
+            ctx.violation(f"precompiled:{mode}:shared-loader-or-late-globals",
+                          f"sequence [env1, env2, env1 again, env1 after late global, env1 reloaded]: "
+                          f"source {seqs['source']} vs precompiled {seqs['precompiled']}",
+                          {"case": case, "mode": mode, "async": is_async})
+    finally:
+        if os.path.isdir(target2):
+            shutil.rmtree(target2, ignore_errors=True)
+        elif os.path.exists(target2):
+            os.remove(target2)
     # the module loader lists nothing it does not have
     miss = util.capture(lambda: mod_env.get_template("definitely/not/there"))
     if os.path.isdir(target):
